@@ -63,7 +63,7 @@ try:
                 path = l.split("replay=")[1].split()[0]
                 try:
                     r = json.load(open(path))
-                    what.append(str(r.get("what") or r.get("violation") or r.get("no_longer_checks") or r.get("detail") or "")[:300] + (" [no-failing-input-found]" if "no-failing-input-found" in l else ""))
+                    what.append((str(r.get("what") or r.get("violation") or r.get("no_longer_checks") or r.get("detail") or "") + (" :: " + str(r.get("detail"))[-700:] if r.get("no_longer_checks") == "machinery error" else ""))[:1100] + (" [no-failing-input-found]" if "no-failing-input-found" in l else ""))
                 except Exception as ex:
                     what.append(str(ex))
         res["checks"][p] = {"rc": rc, "violations": what, "tail": out[-600:] if rc not in (0, 1) else ""}
